@@ -256,6 +256,9 @@ def closure_fn(se, env, clo):
 
 def apply_closure(se, env, pc, clo, args, k):
     """CPS call of a closure value with argument list `args`; k(ret, env, pc)."""
+    c0 = se.deref(env, clo) if isinstance(clo, Ref) else clo
+    if isinstance(c0, dict) and '__fnitem' in c0:
+        return se.call(c0['__fnitem'], list(args), env, pc, k, where='function item')
     f, c = closure_fn(se, env, clo)
     first = f.locals.get('_1', '')
     selfarg = c
